@@ -930,11 +930,68 @@ def genesis_family(ctx, st):
                     "Balance is omitted from the stored form by design)")
 
 
-EXTRA_FAMILIES = [corpus_family, receipts_family, merkle_family, hardfork_family, txsign_family, chainid_family, txroot_family, genesis_family]
-EXTRA_TARGETS = ["Common/Sha256.vo", "Common/Lit.vo", "Codec/Receipt.vo", "Codec/Merkle.vo", "Codec/Hardfork.vo", "Codec/TxRoot.vo"]  # evaluated models that no theorem depends on
+# ------------------------------------------------------------------ genesis info through the real ChainDB (package chain, overlay build)
+def genesis_store_family(ctx, st):
+    rng = ctx.rng
+    quick = ctx.tier == "quick"
+    rc, log, binpath = ctx.go_test_binary("chain", [os.path.join(ENG, "zz_verif_genesis_engine_test.go")], "codec_chain.test", use_overlay=True)
+    if rc != 0:
+        raise RuntimeError("chain (genesis) engine build failed:\n" + log[-3000:])
+    alpha = b"abcdefghijklmnopqrstuvwxyz.0123456789"
+    gs = [{"v": 3, "p": True, "m": False, "magic": b"dev.chain", "cons": b"dpos", "ts": 1700000000, "bps": ["bp1", "bp2"], "total": 1000},
+          {"v": 3, "p": True, "m": False, "magic": b"a/a", "cons": b"dpos", "ts": -5, "bps": [], "total": 0},          # F6 magic, zero total
+          {"v": -1, "p": False, "m": True, "magic": b"", "cons": b"", "ts": 0, "bps": ["x"], "total": None},
+          {"v": 2, "p": True, "m": True, "magic": b"aergo.io", "cons": b"d/p/s", "ts": 2 ** 63 - 1, "bps": ["a", "b", "c"], "total": 2 ** 70 + 255},
+          {"v": 0, "p": False, "m": False, "magic": b"m", "cons": b"raft", "ts": 1, "bps": [], "total": 256}]
+    for _ in range(3 if quick else 40):
+        def rs():
+            b = bytes(rng.choice(alpha) for _ in range(rng.randrange(0, 10)))
+            if rng.random() < 0.2:
+                b += b"/" + bytes(rng.choice(alpha) for _ in range(rng.randrange(0, 3)))
+            return b
+        gs.append({"v": rng.choice([0, 1, 2, 3, 5, -1, 2 ** 31 - 1]), "p": rng.random() < 0.5, "m": rng.random() < 0.5, "magic": rs(), "cons": rs(),
+                   "ts": rng.choice([0, -1, rng.randrange(0, 2 ** 62)]), "bps": ["bp%d" % k for k in range(rng.randrange(0, 4))],
+                   "total": rng.choice([None, 0, 1, 255, 256, 65535, 65536, rng.randrange(1, 2 ** 90)])})
+    cases = [{"Cid": {"Version": g["v"], "Public": g["p"], "Main": g["m"], "Magic": g["magic"].hex(), "Consensus": g["cons"].hex()},
+              "Timestamp": g["ts"], "BPs": g["bps"], "Total": "" if g["total"] is None else str(g["total"])} for g in gs]
+    obs = run_engine(ctx, binpath, "TestVerifGenesisEngine", cases, "genesis_store")
+
+    def coq_g(v, p, m, magic, cons, ts, bps, total):
+        return "(mk_genesis_info (mk_chain_id %d %s %s %s %s) %s [%s] %s)" % (
+            v % 2 ** 32, cbool(p), cbool(m), cb(magic), cb(cons), cZ(ts), "; ".join(cb(x.encode()) for x in bps),
+            "None" if total is None else "(Some %d)" % total)
+    items, src = [], []
+    for g, c, o in zip(gs, cases, obs):
+        rep = {"case": c, "obs": o}
+        if o.get("err") or o.get("back") is None:
+            st.fail("C19:genesis-store-error", "genesis info could not be stored / read back: %s" % o.get("err"), rep)
+            continue
+        b = o["back"]
+        slash = b"/" in g["magic"] or b"/" in g["cons"]
+        st.nontrivial.add(("GS", slash, g["total"] is None, g["total"] == 0, len(g["bps"])))
+        # direct predicate: what was stored at genesis is read back at start-up
+        if (b["Cid"], b["Timestamp"], b["BPs"]) != (c["Cid"], c["Timestamp"], c["BPs"]) or not o["same_hash"]:
+            st.fail("C19:genesis-store-roundtrip", "genesis info read back from the chain DB at start-up differs from what was written "
+                    "(chain id / timestamp / producers / genesis block id)", rep)
+        if g["total"] and b["Total"] != str(g["total"]):
+            st.fail("C19:genesis-store-total", "genesis total balance read back differs", rep)
+        bt = None if b["Total"] == "" else int(b["Total"])
+        bc = b["Cid"]
+        items.append("(%s, (%s, %s), %s)" % (
+            coq_g(g["v"], g["p"], g["m"], g["magic"], g["cons"], g["ts"], g["bps"], g["total"]),
+            cb(hb(o["block_cid"])), "(Some %s)" % cb(hb(o["balance"])) if o["has_balance"] else "None",
+            coq_g(bc["Version"], bc["Public"], bc["Main"], hb(bc["Magic"]), hb(bc["Consensus"]), b["Timestamp"], b["BPs"], bt)))
+        src.append(rep)
+    st.add_family("genesis_store", "genesis_info * (bytes * option bytes) * genesis_info", "genesis_case_ok", items, src)
+    st.rules.append("genesis store: genesis values (incl. '/' in magic, nil / zero / multi-byte total balance, negative version) written by the "
+                    "real ChainDB.addGenesisBlock into a badger DB, database closed and re-opened, GetGenesisInfo compared with get_genesis/add_genesis")
+
+
+EXTRA_FAMILIES = [corpus_family, receipts_family, merkle_family, hardfork_family, txsign_family, chainid_family, txroot_family, genesis_family, genesis_store_family]
+EXTRA_TARGETS = ["Common/Sha256.vo", "Common/Lit.vo", "Codec/Receipt.vo", "Codec/Merkle.vo", "Codec/Hardfork.vo", "Codec/TxRoot.vo", "Codec/GenesisStore.vo"]  # evaluated models that no theorem depends on
 
 IMPORTS = """From Coq Require Import NArith ZArith List Bool String Uint63.
-From Verif Require Import Common.Bytes Common.Lit Common.Sha256 Codec.Fields Codec.Digest Codec.ChainId Codec.Merkle Codec.TxRoot Codec.Receipt Codec.Hardfork %s.
+From Verif Require Import Common.Bytes Common.Lit Common.Sha256 Codec.Fields Codec.Digest Codec.ChainId Codec.Merkle Codec.TxRoot Codec.Receipt Codec.Hardfork Codec.GenesisStore %s.
 Import ListNotations.
 Open Scope N_scope.
 """
